@@ -41,6 +41,29 @@ CHECKS = {
              "in tools/props/c05.py, the harness' walk over Bodies.",
         technique="TLA+ static semantics (TLC enumeration) + spec-to-implementation replay",
         ref="DESIGN.md section 4 C05"),
+    "C08": dict(
+        engine="BV/Arith",
+        category="model_checking",
+        text="Arith.tla (over BV.tla: machine integers as byte sequences, because TLC's integers "
+             "are 32-bit) defines every operator and numeric cast of the property: wrapping + - *, "
+             "division declaratively (a = q*b + r in double width, |r| < |b|, sign of the "
+             "dividend), bitwise ops, shifts and comparisons by the operand type's signedness, "
+             "int->int casts by the source's signedness, int->float as round-to-nearest-even of "
+             "the full value, float->int as truncation when it fits, float->float, and float "
+             "arithmetic on dyadic operands whose exact result is representable. ArithMC.tla's "
+             "state graph enumerates the boundary domain; every case is compiled by the real "
+             "compiler (operands built from bytes at run time), executed at run time and inside "
+             "comptime, and TLC validates each printed result against Arith.tla (TraceArith.tla). "
+             "Seeded random operands go the same way.",
+        note="quick: 27 538 boundary cases (second operands from a 7-value subset) + 3 000 random, "
+             "every 5th also at comptime; thorough: all 16x16 boundary pairs, 40 000 random, all at "
+             "comptime. Widths 8..128, isize/usize, f32/f64. Results that the property leaves open "
+             "(x/0, MIN/-1, float out of the target's range, NaN/inf, the sign of a float zero) "
+             "are accepted whatever they are. i128 division and comptime blocks of type i128 do "
+             "not compile (reported under C06/C07), so they are not evaluated. Known findings "
+             "F08d, F08e. Trusted: TLC, the 120-line renderer in tools/props/c08.py, gcc as linker.",
+        technique="TLA+ operator semantics (TLC enumeration) + trace validation of executed results",
+        ref="DESIGN.md section 4 C08"),
     "C12": dict(
         engine="Ty/TyRelLaws",
         category="model_checking",
